@@ -6,8 +6,8 @@ DRIVER = "drv_signals"
 LEAN_MODULES = ["MesaModel.Props.C17"]
 THEOREMS = ["Mesa.Computed." + t for t in (
     "C17_no_stale_partial", "C17_define_fresh", "C17_clean_is_fresh", "C17_remembers_exactly_last_reads",
-    "C17_minimal_partial", "C17_cached_read_is_free", "C17_cycle_rejected_partial",
-    "C17_no_stale_refuted_with_reading_handler", "C17_cycle_rejected_refuted_after_intermediate_write")]
+    "C17_minimal_partial", "C17_cached_read_is_free", "C17_cycle_rejected", "C17_cycle_never_returns",
+    "C17_cycle_rejected_direct", "C17_cycle_record_per_evaluation", "C17_no_stale_refuted_with_reading_handler")]
 COUNTS = {"quick": 1500, "thorough": 150000}
 EXHAUSTIVE = {"thorough": True}
 TRUSTED = [
@@ -26,7 +26,9 @@ RULE = ("random dependency structures: 1-2 owners, 2-4 Observables with values {
         "random read trees of depth <= 3 that branch on what they read (so the set of Observables read switches), read earlier "
         "Computables (chains) and - in 1/10 of the scenarios - assign Observables; 8-30 ops from assign (incl. restoring "
         "values), read, late definitions, user handlers observing Observables and Computables (in 1/10 of the scenarios the "
-        "handlers read Computables while notified); non-trivial = at least two evaluations after the definitions and at "
+        "handlers read Computables while notified); 4% directed cycle scenarios: a function reads x, then in any order assigns "
+        "other Observables, reads a (chain of) Computable(s) that recompute at that moment, reads; then assigns x - and "
+        "assignments that are no cycle although an earlier evaluation read the key; non-trivial = at least two evaluations after the definitions and at "
         "least one read served from the cache")
 
 
@@ -64,14 +66,6 @@ KNOWN = {
         # a user handler read a Computable while being notified by Observable.__set__ (which stores afterwards)
         # identified by its history: a stale / needless evaluation AFTER some handler read a Computable while notified
         "matches": lambda sc, clause: clause.split(":")[0] in ("stale-after-handler-read", "needless-after-handler-read"),
-    },
-    "G10": {
-        "scenario": [
-            "scenario comp 0.0.obs,0.1.obs,0.2.comp -",
-            "define 0 0 2 ( read 0 0 ( write 0 1 1 ( write 0 0 1 ( ret 0 ) ) ) ( ret 1 ) )",
-        ],
-        # identified by its history: the function assigned another Observable between reading x and assigning x
-        "matches": lambda sc, clause: clause.split(":")[0] == "cycle-not-rejected-after-write",
     },
 }
 
